@@ -222,10 +222,32 @@ fn watched_path(p: *const c_char) -> Option<String> {
 }
 
 fn watched_fd(fd: c_int) -> Option<String> {
-    let g = STATE.lock().unwrap_or_else(|e| e.into_inner());
-    let s = g.as_ref()?;
-    s.watch.as_ref()?;
-    s.fds.get(&fd).cloned()
+    let watch = {
+        let g = STATE.lock().unwrap_or_else(|e| e.into_inner());
+        let s = g.as_ref()?;
+        let w = s.watch.as_ref()?;
+        if let Some(f) = s.fds.get(&fd) {
+            return Some(f.clone());
+        }
+        w.clone()
+    };
+    // a descriptor the shim did not see being opened (duplicated with dup / fcntl, inherited, ...):
+    // ask the kernel which file it is
+    let link = format!("/proc/self/fd/{fd}\0");
+    let mut buf = [0u8; 4096];
+    let n = unsafe { libc::readlink(link.as_ptr() as *const c_char, buf.as_mut_ptr() as *mut c_char, buf.len()) };
+    if n <= 0 {
+        return None;
+    }
+    let mut t = &buf[..n as usize];
+    if t.ends_with(b" (deleted)") {
+        t = &t[..t.len() - 10];
+    }
+    if t.starts_with(&watch) {
+        Some(String::from_utf8_lossy(&t[watch.len()..]).to_string())
+    } else {
+        None
+    }
 }
 
 macro_rules! real {
